@@ -32,7 +32,7 @@ func init() {
 			"oracle: documented sentinel error (either when two rules apply), full observation identical before/after; valid boundary inputs (+-MaxIndexable, its inner neighbours, -0, weight 0 and -0) accepted; constructors over finite parameters return an error or a usable object, never (nil,nil). " +
 			"Non-trivial = non-empty sketch state and >=10 refused calls; distinct = hash of state and calls.",
 		Cases:     core.Scale(40000, 1000000),
-		Mandatory: []string{"oracle.refused_calls", "oracle.state_unchanged", "oracle.accepted_boundary", "oracle.constructor_checks", "refused.nan_quantile", "refused.zero_weight_invalid_value_exact", "refused.merge_mismatch", "constructor.tiny_accuracy"},
+		Mandatory: []string{"oracle.refused_calls", "oracle.state_unchanged", "oracle.accepted_boundary", "oracle.constructor_checks", "refused.nan_quantile", "refused.zero_weight_invalid_value_exact", "refused.merge_mismatch", "refused.merge_mismatch_empty_argument", "constructor.tiny_accuracy"},
 		Run:       runC13,
 	})
 }
@@ -459,9 +459,18 @@ func runC13(c *core.Ctx) {
 			continue
 		}
 		other := mon.NewSketch(exact, om.M, gen.RandPlainStore(r))
-		other.I().Add(om.ClampIn(2))
-		other.I().Add(-om.ClampIn(3))
-		other.I().Add(0)
+		switch r.Intn(3) {
+		case 0: // a fresh, empty argument: the mappings differ all the same
+			c.Count("refused.merge_mismatch_empty_argument", 1)
+		case 1: // used then cleared
+			other.I().Add(om.ClampIn(2))
+			other.I().Clear()
+			c.Count("refused.merge_mismatch_empty_argument", 1)
+		default:
+			other.I().Add(om.ClampIn(2))
+			other.I().Add(-om.ClampIn(3))
+			other.I().Add(0)
+		}
 		ob := mon.Observe(other, nil)
 		name := "MergeWith(sketch with mapping " + []string{"of another kind", "of another accuracy", "with another offset"}[i] + ")"
 		c.Count("refused.merge_mismatch", 1)
